@@ -370,6 +370,23 @@ func provenance(b *harness.B, c *chaingen.Chain, s sample) {
 			break
 		}
 	}
+	// the same set of expiring contracts listed in another order (nothing fixes the order of that list)
+	if len(s.bs.ExpiringFileContracts) >= 2 && s.valid {
+		bs2 := s.bs
+		bs2.ExpiringFileContracts = nil
+		for i := len(s.bs.ExpiringFileContracts) - 1; i >= 0; i-- {
+			bs2.ExpiringFileContracts = append(bs2.ExpiringFileContracts, s.bs.ExpiringFileContracts[i].Copy())
+		}
+		got := evaluate(s.cs, s.b, bs2, c)
+		b.Eval(1)
+		b.Count("supplement_with_the_expiring_contracts_in_another_order_comparisons", 1)
+		if got.verdict == "<accepted>" {
+			if d := ref.equal(got); d != "" {
+				b.Violate("C09/provenance/state-depends-on-the-supplement/expiring-contracts-listed-in-another-order",
+					fmt.Sprintf("the same block on the same parent state is accepted with the %d expiring contracts listed in the store's order and in the reverse order, and reaches different states: %s", len(s.bs.ExpiringFileContracts), d), wit)
+			}
+		}
+	}
 	// while the chain holds an even number of timestamps their median may fall on a half second: a header stamped
 	// between the whole second and the median is the same block as its decoded copy (whole seconds only)
 	if med := chaingen.Median(s.cs); s.valid && med.Nanosecond() != 0 {
@@ -1085,6 +1102,6 @@ func main() {
 		Run:         run,
 		MinEvals:    3000,
 		MinDistinct: 60,
-		Require:     []string{"half_second_median_timestamp_comparisons", "supplement_with_a_contract_not_expiring_comparisons", "recomputable_proof_hash_comparisons", "sub_second_timestamp_comparisons", "state_identity_comparisons", "accepted_blocks", "purity_calls_checked", "provenance_comparisons", "stepwise_comparisons", "copies_checked", "concurrent_calls", "max_overlapping_calls", "update_element_proof_purity_checked", "spare_capacity_siblings_with_formation_and_renewal_in_one_transaction"},
+		Require:     []string{"half_second_median_timestamp_comparisons", "supplement_with_a_contract_not_expiring_comparisons", "recomputable_proof_hash_comparisons", "sub_second_timestamp_comparisons", "state_identity_comparisons", "accepted_blocks", "purity_calls_checked", "provenance_comparisons", "stepwise_comparisons", "copies_checked", "concurrent_calls", "max_overlapping_calls", "update_element_proof_purity_checked", "spare_capacity_siblings_with_formation_and_renewal_in_one_transaction", "supplement_with_the_expiring_contracts_in_another_order_comparisons"},
 	})
 }
